@@ -99,7 +99,7 @@ func checkC04(cx *Ctx, r *Report) {
 					if !ok {
 						continue
 					}
-					o, f := fieldOwner(fa.X.Type()), fieldVar(fa.X.Type(), fa.Field).Name()
+					o, f := fieldOwner(fa.X.Type()), fname(fieldVar(fa.X.Type(), fa.Field))
 					if msgTypes[o] && f != "Signature" {
 						bad = fmt.Sprintf("%s.%s is written at %s after the message was signed: the signature no longer covers what is sent", o, f, w.InstrPos(st))
 					}
@@ -120,7 +120,7 @@ func checkC04(cx *Ctx, r *Report) {
 		bad := ""
 		for _, st := range fx.info(f).stores {
 			if fa, ok := st.Addr.(*ssa.FieldAddr); ok && msgTypes[fieldOwner(fa.X.Type())] {
-				bad = "stores to " + fieldOwner(fa.X.Type()) + "." + fieldVar(fa.X.Type(), fa.Field).Name() + " at " + w.InstrPos(st)
+				bad = "stores to " + fieldOwner(fa.X.Type()) + "." + fname(fieldVar(fa.X.Type(), fa.Field)) + " at " + w.InstrPos(st)
 			}
 		}
 		r.Check(bad == "", "R-ORDER", "passes-message-untouched:"+hk, w.FnPos(f), "no store to the message between signing and sending", hk+" "+bad)
@@ -440,12 +440,12 @@ func (cx *Ctx) checkCanonicalizer(r *Report) {
 						continue
 					}
 					if ld, ok := e.(*ssa.UnOp); ok && ld.Op == token.MUL {
-						if fa, ok := ld.X.(*ssa.FieldAddr); ok && isNamed(derefType(fa.X.Type()), "Attr") && fieldVar(fa.X.Type(), fa.Field).Name() == "Value" {
+						if fa, ok := ld.X.(*ssa.FieldAddr); ok && isNamed(derefType(fa.X.Type()), "Attr") && fname(fieldVar(fa.X.Type(), fa.Field)) == "Value" {
 							attrBad = w.InstrPos(c)
 						}
 					}
 					if f, ok := e.(*ssa.Field); ok && isNamed(f.X.Type(), "Attr") {
-						if f.X.Type().Underlying().(*types.Struct).Field(f.Field).Name() == "Value" {
+						if fname(f.X.Type().Underlying().(*types.Struct).Field(f.Field)) == "Value" {
 							attrBad = w.InstrPos(c)
 						}
 					}
